@@ -23,6 +23,9 @@ Inductive case :=
    variables and exit status of read; None = panic / hang *)
 | CReadLine (ifs_value : option str) (is_raw : bool) (input : str) (n : nat)
             (out : option (list str * N))
+(* expand_word (single-field mode, as for assignment values) of one word:
+   inl value, or inr error kind (as for CWords; 100 = panic) *)
+| CSingle (e : env) (w : word) (out : str + N)
 | CWords (api : bool) (e : env) (cmds : list (list word))
          (out : list (list str)) (stop : option N).
 
@@ -56,12 +59,16 @@ Definition run_case (c : case) : verdict :=
       match out with
       | None => 3%N
       | Some (r, z) =>
-          if phrase_eqb (append a b) r && z then 0%N else 1%N
+          if negb (fields_eqb (phrase_fields r) (glue (phrase_fields a) (phrase_fields b)) && z)
+          then 11%N
+          else if phrase_eqb (append a b) r then 0%N else 1%N
       end
   | CJoin p iv out =>
       match out with
       | None => 3%N
-      | Some f => if field_eqb (ifs_join p iv) f then 0%N else 1%N
+      | Some f =>
+          if negb (field_eqb f (join_with (separator_list iv) (phrase_fields p))) then 12%N
+          else if field_eqb (ifs_join p iv) f then 0%N else 1%N
       end
   | CReadAssign iv text n out =>
       match out with
@@ -86,6 +93,29 @@ Definition run_case (c : case) : verdict :=
             | Some (vs', st') => if strs_eqb vs' vs && N.eqb st' st then 0%N else 1%N
             | None => 1%N
             end
+      end
+  | CSingle e w out =>
+      match out with
+      | inr 100%N => 3%N
+      | _ =>
+          let oracle : N :=
+            match spec_word_single w e, out with
+            | SUnspec, _ => 0
+            | SOk v _, inl v' => if str_eqb v v' then 0 else 13
+            | SOk _ _, inr _ => 5
+            | SErr k, inr c => if N.eqb c (kind_code k) then 0 else 7
+            | SErr _, inl _ => 6
+            end%N in
+          match oracle with
+          | 0%N =>
+              match expand_word_single w e, out with
+              | Err EDomain, _ => 99%N
+              | Ok v _, inl v' => if str_eqb v v' then 0%N else 1%N
+              | Err k, inr c => if N.eqb c (kind_code k) then 0%N else 1%N
+              | _, _ => 1%N
+              end
+          | k => k
+          end
       end
   | CWords api e cmds out stop =>
       match stop with
